@@ -91,14 +91,21 @@ def build_input(rng, idx):
     # registry style: some keys are aliases that differ from the object's own __name__
     alias = rng.random() < 0.5
     keys = [("alias_" + n.lower()) if (alias and rng.random() < 0.6) else n for n in names]
-    lines.append("input_map = {" + ", ".join("'{0}': {1}".format(k, n) for k, n in zip(keys, names)) + "}")
+    # the documented input forms: dictionary / mapping / collection of 2-tuples
+    form = rng.choice(["dict", "dict", "list_of_pairs", "tuple_of_pairs"])
+    if form == "dict":
+        lines.append("input_map = {" + ", ".join("'{0}': {1}".format(k, n) for k, n in zip(keys, names)) + "}")
+    else:
+        body = ", ".join("('{0}', {1})".format(k, n) for k, n in zip(keys, names)) + ("," if len(keys) == 1 else "")
+        lines.append("input_map = " + ("[" + body + "]" if form == "list_of_pairs" else "(" + body + ")"))
     expect = {k: expect[n] for k, n in zip(keys, names)}
     obj_kind = {k: ("class" if n.startswith("Klass") else "function") for k, n in zip(keys, names)}
     names = keys
     lines.append("")
     feats = {"n_entries": n, "n_import_lines": n_imp, "annotated": annotated, "entry_kinds": sorted(set(kinds)),
              "has_function_entry": "function" in kinds, "has_class_entry": "class" in kinds,
-             "any_params": any(expect.values()), "aliased_keys": alias, "obj_kind": obj_kind}
+             "any_params": any(expect.values()), "aliased_keys": alias, "obj_kind": obj_kind, "mapping_form": form,
+             "keys_in_sorted_order": list(keys) == sorted(keys)}
     return "\n".join(lines), names, feats, expect
 
 
